@@ -740,3 +740,31 @@ func ruleHandlerTableRead(c *Ctx, rule string) {
 	}
 	c.obRF(rule, hf, "reads-handler-table", n >= 1, "HandlerFor reads the per-method handler table", fmt.Sprintf("%d", n))
 }
+
+// ruleRegistryEntriesByOwnKey (shared by C06 and C08): the per-route table the untyped API hands out maps each media
+// type to the codec registered under THAT media type — an entry is never filled with the codec of another key (the API
+// default, a family representative): a type nobody registered a codec for stays out of the table.
+func ruleRegistryEntriesByOwnKey(c *Ctx, rule, fn, field string) {
+	f := c.P.FnOpt(fn)
+	if f == nil {
+		return
+	}
+	const apiT = "rt/middleware/untyped.API"
+	n := 0
+	for _, in := range instrs(f) {
+		mu, ok := in.(*ssa.MapUpdate)
+		if !ok || in.Parent() != f {
+			continue
+		}
+		n++
+		okV, bad := allOrigins(mu.Value, func(o Origin) bool {
+			lk, isLk := o.V.(*ssa.Lookup)
+			if !isLk || !(vFieldLoad(apiT, field, nil)(lk.X) || vFieldLoadO(apiT, field)(lk.X)) {
+				return false
+			}
+			return lk.Index == mu.Key || sameVal(lk.Index, mu.Key) || sameOrigins(lk.Index, mu.Key)
+		})
+		c.obI(rule, mu, "entry-is-the-codec-registered-under-its-own-key", okV, "each entry of the table handed to a route is "+field+"[that media type]", "the entry for a media type is filled from "+describeOrigin(bad)+": a type without a codec of its own is served by another type's codec")
+	}
+	c.obRF(rule, f, "fills-route-table", n >= 1, baseName(fn)+" fills the table it returns", "")
+}
